@@ -138,3 +138,134 @@ Definition zero_indexed (int_dtype : bool) (ids : list Z) : bool :=
     if existsb (Z.eqb CONTROL_SENTINEL_VALUE) ids
     then Zlist_eqb u ((-1) :: map Z.of_nat (seq 0 (length u - 1)))
     else Zlist_eqb u (map Z.of_nat (seq 0 (length u))).
+
+(* ==== vocabulary of the source-translation link for C01 ====
+   (harness/src_functions.py C01_*, generated file Generated/SrcEncode.v, proofs Proofs/C01Source.v)
+   numpy: a 1-d array is the list of its values; an ID ARRAY additionally carries "its dtype is an integer
+   dtype" (the only thing numpy_array_is_0_indexed_integers asks of the dtype).
+   pandas: a DataFrame is the list of its rows IN ORDER, each row with its index label ([frame R], R the tuple
+   of the column values; column ORDER is not represented, columns are only ever addressed by name).  A Series is
+   the list of its values: Series / Index operators and the assignment of a Series to a column are POSITIONAL,
+   which is pandas' meaning when the labels of the operands agree (every Series of the encoders is a column of,
+   or the index of, the frame it is combined with; on lists of different lengths - where pandas would align,
+   fill or raise - the list operations stop at the shorter one).
+   Doses are order keys: the only operation on a dose column is `<= 0` (key <= 0  <=>  dose <= 0) and equality.
+   Each definition is the meaning of ONE numpy / pandas call. *)
+Definition idarray := (bool * list Z)%type.
+Definition arr_is_int (a : idarray) : bool := fst a.                          (* np.issubdtype(a.dtype, int) *)
+Definition arr_vals (a : idarray) : list Z := snd a.
+Definition np_contains (x : Z) (a : idarray) : bool := existsb (Z.eqb x) (snd a).         (* x in a *)
+Definition np_unique_ids (a : idarray) : list Z := sort_uniq Z.compare (snd a).         (* np.unique(a): sorted distinct values *)
+
+(* stable insertion sort over a comparison (np.sort; DataFrame.sort_values: pandas does not promise the order
+   among rows with EQUAL keys for its default kind, the encoders sort duplicate-free frames only) *)
+Fixpoint insert_sorted {K} (cmp : K -> K -> comparison) (k : K) (l : list K) : list K :=
+  match l with
+  | [] => [k]
+  | x :: r => match cmp k x with Gt => x :: insert_sorted cmp k r | _ => k :: l end
+  end.
+Definition sort_by {K} (cmp : K -> K -> comparison) (l : list K) : list K := fold_right (insert_sorted cmp) [] l.
+Definition np_sort_Z (l : list Z) : list Z := sort_by Z.compare l.                        (* np.sort(l) *)
+Definition np_eq_Z (a b : list Z) : list bool := map (fun p => fst p =? snd p) (combine a b).   (* a == b, equal shapes *)
+Definition all_true (b : list bool) : bool := forallb (fun x => x) b.                  (* np.all(b); True for no element *)
+
+(* a mapping argument / result as the tuple of aligned arrays Python passes around *)
+Definition tmap_py := (list name * list Z * idarray)%type.      (* (names, doses, ids) *)
+Definition smap_py := (list name * idarray)%type.                (* (names, ids) *)
+
+(* ---- pandas ---- *)
+Definition frame (R : Type) : Type := list (Z * R).             (* (index label, row) in order *)
+(* a new frame gets the default RangeIndex 0 .. n-1 *)
+Definition df_fresh {R} (rows : list R) : frame R := combine (map Z.of_nat (seq 0 (length rows))) rows.
+(* pandas.DataFrame({c1: a1, c2: a2}) / ({c1: a1, c2: a2, c3: a3}): ValueError (tag 15) unless the arrays have one length *)
+Definition df_of_cols2 {A B} (a : list A) (b : list B) : result (frame (A * B)) :=
+  if Nat.eqb (length a) (length b) then Ok (df_fresh (combine a b)) else Err 15.
+Definition df_of_cols3 {A B C} (a : list A) (b : list B) (c : list C) : result (frame (A * B * C)) :=
+  if Nat.eqb (length a) (length b) && Nat.eqb (length b) (length c) then Ok (df_fresh (combine (combine a b) c)) else Err 15.
+Definition df_index {R} (d : frame R) : list Z := map fst d.                              (* d.index *)
+(* d.drop_duplicates(): a row is kept (with its label) iff no earlier row has the same values *)
+Fixpoint drop_dups_from {R} (eqb : R -> R -> bool) (seen : list R) (d : frame R) : frame R :=
+  match d with
+  | [] => []
+  | (l, r) :: rest => if existsb (eqb r) seen then drop_dups_from eqb seen rest
+                      else (l, r) :: drop_dups_from eqb (r :: seen) rest
+  end.
+Definition df_drop_duplicates {R} (eqb : R -> R -> bool) (d : frame R) : frame R := drop_dups_from eqb [] d.
+(* d.sort_values(by=<the key columns>): rows (with their labels) in ascending key order *)
+Definition df_sort_values {R} (cmp : R -> R -> comparison) (d : frame R) : frame R :=
+  sort_by (fun a b => cmp (snd a) (snd b)) d.
+Definition df_reset_drop {R} (d : frame R) : frame R := df_fresh (map snd d).             (* d.reset_index(drop=True) *)
+(* d.reset_index(drop=False): the old labels become the column "index" *)
+Definition df_reset_keep {R} (d : frame R) : frame (Z * R) := df_fresh d.
+(* d[c] = s, c a new column: positional (see above) *)
+Definition df_add_col {R A} (d : frame R) (s : list A) : frame (R * A) :=
+  map (fun p => (fst (fst p), (snd (fst p), snd p))) (combine d s).
+(* d.loc[labels, c] = v, c the column added last: the rows whose label is in [labels] get v there *)
+Definition df_loc_set {R A} (d : frame (R * A)) (labels : list Z) (v : A) : frame (R * A) :=
+  map (fun p => if existsb (Z.eqb (fst p)) labels then (fst p, (fst (snd p), v)) else p) d.
+(* l.merge(r, on=<key columns>, how="left"): for every row of l in order, one row per row of r with an equal key
+   (in r's order) carrying r's value column, or ONE row with NaN (None) when r has none; fresh RangeIndex *)
+Definition df_merge_left {K V} (eqb : K -> K -> bool) (l : frame K) (r : frame (K * V)) : frame (K * option V) :=
+  df_fresh (flat_map (fun p =>
+              match filter (fun q => eqb (snd p) (fst q)) (map snd r) with
+              | [] => [(snd p, None)]
+              | ms => map (fun q => (snd p, Some (snd q))) ms
+              end) l).
+
+(* Series *)
+Definition series_le0 (s : list Z) : list bool := map (fun x => x <=? 0) s.                (* s <= 0, s a dose column *)
+Definition series_eq_name (s : list name) (c : name) : list bool := map (fun n => name_eqb n c) s.   (* s == c *)
+Definition series_or (a b : list bool) : list bool := map (fun p => fst p || snd p) (combine a b).  (* a | b *)
+Fixpoint cumsum_from (acc : Z) (s : list bool) : list Z :=
+  match s with
+  | [] => []
+  | b :: r => let acc' := if b then acc + 1 else acc in acc' :: cumsum_from acc' r
+  end.
+Definition series_cumsum (s : list bool) : list Z := cumsum_from 0 s.                     (* s.cumsum(), s boolean *)
+Definition series_sub (a b : list Z) : list Z := map (fun p => fst p - snd p) (combine a b).       (* a - b *)
+Definition series_select {A} (m : list bool) (a : list A) : list A := map snd (filter fst (combine m a)).   (* a[m] *)
+Definition series_notna {A} (s : list (option A)) : list bool :=                           (* s.notna() *)
+  map (fun o => match o with Some _ => true | None => false end) s.
+
+(* the frames of encode_treatment_arrays_to_0_indexed_ids, by their columns *)
+Definition kframe := frame tkey.                                 (* name, dose *)
+Definition cframe := frame (tkey * bool).                        (* + is_control *)
+Definition iframe := frame (Z * (tkey * bool)).                  (* + index *)
+Definition nframe := frame (Z * (tkey * bool) * Z).              (* + new_index *)
+Definition dframe := frame (tkey * bool * Z).                    (* - index *)
+Definition mframe := frame (tkey * Z).                           (* - is_control: name, dose, new_index *)
+Definition jframe := frame (tkey * option Z).                    (* df.merge(df_unique): new_index may be NaN *)
+Definition mframe_of_cols (a : list name) (b : list Z) (c : idarray) : result mframe := df_of_cols3 a b (snd c).
+Definition kcol_name (d : kframe) : list name := map (fun p => fst (snd p)) d.            (* d["name"] *)
+Definition kcol_dose (d : kframe) : list Z := map (fun p => snd (snd p)) d.               (* d["dose"] *)
+Definition icol_is_control (d : iframe) : list bool := map (fun p => snd (snd (snd p))) d.         (* d.is_control *)
+Definition ncol_is_control (d : nframe) : list bool := map (fun p => snd (snd (fst (snd p)))) d.
+Definition df_del_index (d : nframe) : dframe :=                                          (* del d["index"] *)
+  map (fun p => (fst p, (snd (fst (snd p)), snd (snd p)))) d.
+Definition df_del_is_control (d : dframe) : mframe :=                                     (* del d["is_control"] *)
+  map (fun p => (fst p, (fst (fst (snd p)), snd (snd p)))) d.
+Definition mcol_name (d : mframe) : list name := map (fun p => fst (fst (snd p))) d.      (* d.name *)
+Definition mcol_dose (d : mframe) : list Z := map (fun p => snd (fst (snd p))) d.         (* d.dose *)
+Definition mcol_new_index (d : mframe) : list Z := map (fun p => snd (snd p)) d.          (* d.new_index *)
+Definition jcol_new_index {K} (d : frame (K * option Z)) : list (option Z) := map (fun p => snd (snd p)) d.
+
+(* the frames of encode_1d_array_to_0_indexed_ids *)
+Definition vframe := frame name.                                 (* val *)
+Definition viframe := frame (Z * name).                          (* index, val *)
+Definition vmframe := frame (name * Z).                          (* val, new_index *)
+Definition vframe_of_col (a : list name) : vframe := df_fresh a.                          (* pandas.DataFrame({"val": a}) *)
+Definition vmframe_of_cols (a : list name) (b : idarray) : result vmframe := df_of_cols2 a (snd b).
+(* d.rename(columns={"index": "new_index"}) *)
+Definition df_rename_index (d : viframe) : vmframe := map (fun p => (fst p, (snd (snd p), fst (snd p)))) d.
+Definition vmcol_val (d : vmframe) : list name := map (fun p => fst (snd p)) d.           (* d.val *)
+Definition vmcol_new_index (d : vmframe) : list Z := map (fun p => snd (snd p)) d.        (* d.new_index *)
+
+(* a Python mapping tuple whose arrays have one length, as the rows of the model's mapping, and back *)
+Definition tmap_py_aligned (t : tmap_py) : bool :=
+  Nat.eqb (length (fst (fst t))) (length (snd (fst t))) && Nat.eqb (length (snd (fst t))) (length (snd (snd t))).
+Definition tmap_py_rows (t : tmap_py) : tmapping := combine (combine (fst (fst t)) (snd (fst t))) (snd (snd t)).
+Definition tmap_py_of (m : tmapping) (isint : bool) : tmap_py :=
+  (map (fun e => fst (fst e)) m, map (fun e => snd (fst e)) m, (isint, map snd m)).
+Definition smap_py_aligned (t : smap_py) : bool := Nat.eqb (length (fst t)) (length (snd (snd t))).
+Definition smap_py_rows (t : smap_py) : nmapping := combine (fst t) (snd (snd t)).
+Definition smap_py_of (m : nmapping) (isint : bool) : smap_py := (map fst m, (isint, map snd m)).
